@@ -1,6 +1,7 @@
 package main
 
 import (
+	"bytes"
 	"context"
 	"fmt"
 	"sort"
@@ -9,6 +10,7 @@ import (
 	"sync/atomic"
 
 	tq "github.com/facebookincubator/tacquito"
+	rlog "github.com/facebookincubator/tacquito/cmds/server/log"
 )
 
 // CapLog implements every loggerProvider interface of the repository and records what the
@@ -25,9 +27,26 @@ type CapLog struct {
 	armed   int32
 	parked  chan struct{}
 	release chan struct{}
+	// the repository's own logger (cmds/server/log, debug level) writing into a buffer: every recorded call is also
+	// handed to it and what it renders is searched for the same tokens (its Record does the obscuring in production)
+	real    *rlog.Logger
+	realBuf *bytes.Buffer
 }
 
-func NewCapLog(rec *Rec, on bool) *CapLog { return &CapLog{rec: rec, on: on} }
+func NewCapLog(rec *Rec, on bool) *CapLog {
+	l := &CapLog{rec: rec, on: on, realBuf: &bytes.Buffer{}}
+	l.real = rlog.New(30, l.realBuf)
+	return l
+}
+
+// rendered: run f against the real logger and return what it wrote
+func (l *CapLog) rendered(f func(r *rlog.Logger)) string {
+	l.mu.Lock()
+	defer l.mu.Unlock()
+	l.realBuf.Reset()
+	f(l.real)
+	return l.realBuf.String()
+}
 
 func (l *CapLog) hits(s string) []string {
 	var h []string
@@ -77,7 +96,29 @@ func (l *CapLog) logf(kind string, format string, args ...interface{}) {
 	if !l.on {
 		return
 	}
-	l.rec.Emit(E{"e": "log", "k": kind, "msg": msg, "hits": hb(l.hits(msg))})
+	out := l.rendered(func(r *rlog.Logger) {
+		switch kind {
+		case "info":
+			r.Infof(context.Background(), format, args...)
+		case "error":
+			r.Errorf(context.Background(), format, args...)
+		default:
+			r.Debugf(context.Background(), format, args...)
+		}
+	})
+	l.rec.Emit(E{"e": "log", "k": kind, "msg": msg, "hits": hb(uniq(append(l.hits(msg), l.hits(out)...)))})
+}
+
+func uniq(a []string) []string {
+	seen := map[string]bool{}
+	out := []string{}
+	for _, x := range a {
+		if !seen[x] {
+			seen[x] = true
+			out = append(out, x)
+		}
+	}
+	return out
 }
 
 func nz(a []string) []string {
@@ -132,6 +173,16 @@ func (l *CapLog) Record(ctx context.Context, r map[string]string, obscure ...str
 			hitKeys = append(hitKeys, k)
 			hits = append(hits, h...)
 		}
+	}
+	// what the repository's logger makes of the same call (on a copy: its Record overwrites the obscured values in place)
+	cp := make(map[string]string, len(r))
+	for k, v := range r {
+		cp[k] = v
+	}
+	out := l.rendered(func(rl *rlog.Logger) { rl.Record(ctx, cp, obscure...) })
+	if h := l.hits(out); len(h) > 0 {
+		hitKeys = append(hitKeys, "<rendered>")
+		hits = uniq(append(hits, h...))
 	}
 	l.rec.Emit(E{"e": "log", "k": "record", "keys": shown, "obs": nz(obscure), "hitkeys": hitKeys, "hits": hb(hits), "pt": r["packet-type"]})
 }
